@@ -258,6 +258,7 @@ pub fn bank_strategy(cfg: &GenCfg) -> impl Strategy<Value = BankSpec> {
                 asset_tag: (fee_max % 3 == 1) as u8,
                 op_state: 1,
                 permissionless_bad_debt: permless,
+                staked: None,
             }
         })
 }
@@ -1125,6 +1126,7 @@ fn dec_bank(r: &mut ByteReader) -> BankSpec {
         asset_tag: 0,
         op_state: 1,
         permissionless_bad_debt: r.u8() % 5 == 0,
+        staked: None,
     }
 }
 
